@@ -157,3 +157,120 @@ example : Reach cfg0 (run cfg0 hist0) := ⟨hist0, rfl⟩
 example : tracked (run cfg0 hist0) ("10.0.0.1", "idMin") ∧
     (run cfg0 hist0).timeouts[("10.0.0.1", "idMin")]? = some ⟨0, false⟩ ∧ 300 - 0 ≤ cfg0.unusedT := by
   simp [run, hist0, step, register, cfg0, init, tracked]
+
+namespace CJ.Props.C08
+open CJ.Registry
+
+/-! ### the timeout record in terms of the history: creation time is fixed at first tracking, the
+used flag is raised only by a connection (`markActive`) — so "age" in `sweep_exact` is the time since
+the registration was first tracked in its current lifetime, and duplicates do not refresh it. -/
+
+/-- a registration that is not tracked gets its record stamped `now`, unused, when it is first
+tracked (by `track` or by `register`) -/
+theorem first_track_stamps (c : Cfg) (s : St) (k : Key) (tr now : Nat)
+    (hen : c.enabled.contains tr = true) (hnew : s.decoys[k]? = none) :
+    (track c s k tr now).1.timeouts[k]? = some ⟨now, false⟩ ∧
+    (register c s k tr now).1.timeouts[k]? = some ⟨now, false⟩ := by
+  have hen' : tr ∈ c.enabled := by simpa using hen
+  constructor
+  · rw [track_timeouts_get]; simp [hen', hnew]
+  · rw [register_timeouts_get]; simp [hen', hnew]
+
+/-- within a lifetime no operation — duplicates, validations, connections, lookups, sweeps that keep
+it — changes the creation time, and the used flag only ever goes up -/
+theorem record_stable (c : Cfg) (s : St) (op : Op) (k : Key) (t t' : TO) (hi : Inv s)
+    (h : s.timeouts[k]? = some t) (h' : (step c s op).1.timeouts[k]? = some t') :
+    t'.time = t.time ∧ (t.used = true → t'.used = true) := by
+  have htr : s.decoys.contains k = true := by rw [hi k]; exact contains_of_getElem? _ _ _ h
+  have hdk : s.decoys[k]? ≠ none := by
+    rw [HashMap.contains_eq_isSome_getElem?] at htr
+    intro e; rw [e] at htr; cases htr
+  cases op with
+  | track k0 tr now =>
+    have : (track c s k0 tr now).1.timeouts[k]? = some t' := h'
+    rw [track_timeouts_get] at this
+    by_cases e : k0 = k ∧ c.enabled.contains tr = true ∧ s.decoys[k0]? = none
+    · obtain ⟨rfl, _, hn⟩ := e; exact absurd hn hdk
+    · simp only [e, if_false] at this; rw [h] at this; cases this; exact ⟨rfl, id⟩
+  | register k0 tr now =>
+    have : (register c s k0 tr now).1.timeouts[k]? = some t' := h'
+    rw [register_timeouts_get] at this
+    by_cases e : k0 = k ∧ c.enabled.contains tr = true ∧ s.decoys[k0]? = none
+    · obtain ⟨rfl, _, hn⟩ := e; exact absurd hn hdk
+    · simp only [e, if_false] at this; rw [h] at this; cases this; exact ⟨rfl, id⟩
+  | markActive k0 tr =>
+    have : (markActive c s k0 tr).1.timeouts[k]? = some t' := h'
+    rw [markActive_timeouts_get] at this
+    by_cases e : k0 = k ∧ c.enabled.contains tr = true
+    · obtain ⟨rfl, _⟩ := e
+      simp only [*, and_self, if_true, Option.map_some, Option.some.injEq] at this
+      subst this; exact ⟨rfl, fun _ => rfl⟩
+    · simp only [e, if_false] at this; rw [h] at this; cases this; exact ⟨rfl, id⟩
+  | collect now => have : s.timeouts[k]? = some t' := h'; rw [h] at this; cases this; exact ⟨rfl, id⟩
+  | remove k0 now =>
+    have : (remove c now s k0).1.timeouts[k]? = some t' := h'
+    rcases remove_timeouts_get c now s k0 k with e | e
+    · rw [e, h] at this; cases this; exact ⟨rfl, id⟩
+    · rw [e] at this; cases this
+  | sweep now =>
+    have : (sweep c now s).1.timeouts[k]? = some t' := h'
+    rw [sweep_fst] at this
+    rcases removeAllS_timeouts_get c now _ s k with e | e
+    · rw [e, h] at this; cases this; exact ⟨rfl, id⟩
+    · rw [e] at this; cases this
+  | lookup p => have : s.timeouts[k]? = some t' := h'; rw [h] at this; cases this; exact ⟨rfl, id⟩
+  | exists_ k0 tr => have : s.timeouts[k]? = some t' := h'; rw [h] at this; cases this; exact ⟨rfl, id⟩
+  | count p => have : s.timeouts[k]? = some t' := h'; rw [h] at this; cases this; exact ⟨rfl, id⟩
+  | total => have : s.timeouts[k]? = some t' := h'; rw [h] at this; cases this; exact ⟨rfl, id⟩
+
+/-- the used flag is raised only by a connection on that very registration -/
+theorem used_only_by_connection (c : Cfg) (s : St) (op : Op) (k : Key) (t t' : TO) (hi : Inv s)
+    (h : s.timeouts[k]? = some t) (h' : (step c s op).1.timeouts[k]? = some t')
+    (hu : t.used = false) (hu' : t'.used = true) : ∃ tr, op = .markActive k tr := by
+  have htr : s.decoys.contains k = true := by rw [hi k]; exact contains_of_getElem? _ _ _ h
+  have hdk : s.decoys[k]? ≠ none := by
+    rw [HashMap.contains_eq_isSome_getElem?] at htr
+    intro e; rw [e] at htr; cases htr
+  have same : (step c s op).1.timeouts[k]? = s.timeouts[k]? → False := by
+    intro e; rw [e, h] at h'; cases h'; rw [hu] at hu'; cases hu'
+  cases op with
+  | markActive k0 tr =>
+    by_cases e : k0 = k
+    · subst e; exact ⟨tr, rfl⟩
+    · exfalso; apply same
+      show (markActive c s k0 tr).1.timeouts[k]? = _
+      rw [markActive_timeouts_get]; simp [e]
+  | track k0 tr now =>
+    exfalso; apply same
+    show (track c s k0 tr now).1.timeouts[k]? = _
+    rw [track_timeouts_get]
+    by_cases e : k0 = k ∧ c.enabled.contains tr = true ∧ s.decoys[k0]? = none
+    · obtain ⟨rfl, _, hn⟩ := e; exact absurd hn hdk
+    · simp only [e, if_false]
+  | register k0 tr now =>
+    exfalso; apply same
+    show (register c s k0 tr now).1.timeouts[k]? = _
+    rw [register_timeouts_get]
+    by_cases e : k0 = k ∧ c.enabled.contains tr = true ∧ s.decoys[k0]? = none
+    · obtain ⟨rfl, _, hn⟩ := e; exact absurd hn hdk
+    · simp only [e, if_false]
+  | collect now => exact absurd rfl same
+  | remove k0 now =>
+    exfalso
+    rcases remove_timeouts_get c now s k0 k with e | e
+    · exact same e
+    · have : (remove c now s k0).1.timeouts[k]? = some t' := h'
+      rw [e] at this; cases this
+  | sweep now =>
+    exfalso
+    have h2 : (sweep c now s).1.timeouts[k]? = some t' := h'
+    rw [sweep_fst] at h2
+    rcases removeAllS_timeouts_get c now _ s k with e | e
+    · apply same; show (sweep c now s).1.timeouts[k]? = _; rw [sweep_fst]; exact e
+    · rw [e] at h2; cases h2
+  | lookup p => exact absurd rfl same
+  | exists_ k0 tr => exact absurd rfl same
+  | count p => exact absurd rfl same
+  | total => exact absurd rfl same
+
+end CJ.Props.C08
